@@ -143,6 +143,57 @@ def run(ctx):
             streams += [rej + acc, rej + rej + chunk(n - 2), chunk((1 << b) - 1) + acc]
         for s in streams:
             draw(n, s + acc * 2, "randrange(%d) on stream %s.." % (n, s[:24].hex()))
+    # long runs of rejected chunks (R rejections, then an acceptable chunk): no cap, no fallback, still the first acceptable one
+    for n in [200, 50000, orders[0], orders[3]]:
+        b = max(1, (n - 2).bit_length())
+        B = b // 8 + 1
+        shift = 8 * B - b
+        rejc = (((1 << b) - 1) << shift).to_bytes(B, "big")
+        for R in ((1, 60, 127, 128, 129, 300) if quick else (1, 2, 3, 50, 60, 64, 100, 127, 128, 129, 255, 256, 257, 300, 400)):
+            good = ((rnd.randrange(0, n - 1) << shift) | (rnd.getrandbits(shift) if shift else 0)).to_bytes(B, "big")
+            st = Stream(rejc * R + good + rejc * 3, filler=b"\x00")
+            try:
+                v, ok = guarded(lambda: util.randrange(n, st), 10.0), True
+            except BaseException:  # noqa
+                v, ok = 0, False
+            events.append({"op": "draw", "n": n2l(n), "reqs": st.take()[:R + 6], "value": n2l(v), "ok": ok})
+            meta.append("randrange(%d) on %d rejected chunks followed by an acceptable one" % (n, R))
+            ctx.nontrivial.add(("longrej", n, R))
+    # entropy callables of other kinds: an object that is falsy (defines __len__ / __bool__), and the library's own util.PRNG
+    # object (not observable from outside: its stream is known from a twin with the same seed)
+    class FalsyStream(Stream):
+        def __len__(self):
+            return 0
+
+    class FalseStream(Stream):
+        def __bool__(self):
+            return False
+        __nonzero__ = __bool__
+    for n in [7, 200, 65537, orders[0], orders[1], orders[5], 2 ** 64 + 1]:
+        b = max(1, (n - 2).bit_length())
+        B = b // 8 + 1
+        for kind in (FalsyStream, FalseStream):
+            data = bytes(rnd.randrange(256) for _ in range(40 * B))
+            st = kind(data, filler=b"\x00")
+            try:
+                v, ok = guarded(lambda: util.randrange(n, st), 5.0), True
+            except BaseException:  # noqa
+                v, ok = 0, False
+            events.append({"op": "draw", "n": n2l(n), "reqs": st.take()[:50], "value": n2l(v), "ok": ok})
+            meta.append("randrange(%d, entropy=<a callable object that is falsy: %s>)" % (n, kind.__name__))
+        for seed in (b"seed-a", bytes([n % 251, 3, 9])):
+            for pre in (0, 32, 5):      # a fresh PRNG, one whose pool has just been drained to a block boundary, one mid-block
+                try:
+                    prng, twin = util.PRNG(seed), util.PRNG(seed)
+                    if pre:
+                        prng(pre), twin(pre)
+                    chunks = [twin(B) for _ in range(40)]
+                    v, ok = guarded(lambda: util.randrange(n, prng), 5.0), True
+                except BaseException:  # noqa
+                    v, ok, chunks = 0, False, []
+                events.append({"op": "drawfirst", "n": n2l(n), "reqs": [{"size": B, "bytes": b2l(ch)} for ch in chunks], "value": n2l(v), "ok": ok})
+                meta.append("randrange(%d, entropy=util.PRNG(%r) after reading %d bytes)" % (n, seed, pre))
+                ctx.nontrivial.add(("prng-entropy", n, seed, pre))
     # key generation and signing with a caller-supplied entropy function
     for c in list(curves.curves)[:17] + [toy.lib_curve(ecdsa, "T263")]:
         n = c.order
